@@ -86,6 +86,7 @@ def main():
         from vf import gen
 
         rec.count("generated_screens_with_arrays_in_other_containers", gen.DRESSED[0])
+        rec.count("posterior_sample_blocks_in_other_containers", gen.DRESSED_THETA_BLOCKS[0])
     except Exception:
         pass
     rec.count("shards_under_python_O" if not __debug__ else "shards_with_asserts_enabled")
